@@ -1225,7 +1225,9 @@ func (g *Gen) processBlock(b *ssa.BasicBlock, entrySt *State) {
 					}
 					o := g.addObl("body-assert", fmt.Sprintf("loop%d:%s", l2.ordinal, label), st, t, token.NoPos)
 					o.Text = c.Text
-					g.sc.assume(st.pc, t)
+					if c.Kind != "body-check" {
+						g.sc.assume(st.pc, t)
+					}
 				}
 			}
 		}
